@@ -53,7 +53,8 @@ Definition run20 (c : case) : sx :=
       if negb (def_accepted d) then L [A (-2); A 6] else       (* AssertionError *)
       match build_random_tree d typed (Z.to_nat fuel) s with
       | (cls, name, f) =>
-          L [sx_bool cls; sx_opt sx_text name; L (map (sx_gt typed) f); sx_bool (in_domain d fuel rk)]
+          L [sx_bool cls; sx_opt sx_text name; L (map (sx_gt typed) f); sx_bool (in_domain d fuel rk);
+             sx_bool forward_attrs]
       end
   | CCyclic d fuel s =>
       let n := Z.to_nat fuel in
